@@ -30,6 +30,8 @@ Definition run_case (pn : N) (dom : string) (args : list arg) : list string :=
     match args with [AB bs; AN eb; AB ebs] => run_elfname p bs eb ebs | _ => bad end
   else if dom =? "pstr" then
     match args with [AB bs] => run_pstr bs | _ => bad end
+  else if dom =? "gettag" then
+    match args with [AN sel; AB bs] => run_gettag p sel bs | _ => bad end
   else if dom =? "mbinull" then run_mbinull p
   else if dom =? "iters" then
     match args with [AB bs; AL ops] => run_iters p bs ops | _ => bad end
